@@ -118,6 +118,15 @@ impl<W, R, T> XStack<W, R, T> {
 }
 
 impl<W: 'static, R: 'static, T: 'static> XNativeValue for XStack<W, R, T> {
+    #[cfg(xray_verif)]
+    fn verif_payload(&self) -> usize {
+        if self.head.is_some() {
+            size_of::<usize>()
+        } else {
+            0
+        }
+    }
+
     fn dyn_size(&self) -> usize {
         let mut managed_count = 0;
         let mut node = &self.head;
@@ -374,4 +383,16 @@ pub(crate) fn add_stack_dyn_hash<W, R, T>(
             },
         ))
     })
+}
+
+#[cfg(xray_verif)]
+impl<W, R, T> XStack<W, R, T> {
+    pub(crate) fn verif_len(&self) -> usize {
+        self.length
+    }
+
+    /// top first
+    pub(crate) fn verif_items(&self) -> Vec<Rc<ManagedXValue<W, R, T>>> {
+        self.iter().collect()
+    }
 }
